@@ -197,7 +197,7 @@ func (c *Ctx) wfLoaded(s *State, comps []Comp, ts []*Term) {
 			continue
 		}
 		c.wfSeen[key] = true
-		if ts[i].MaxSym <= c.entrySym {
+		if ts[i].MaxSym <= c.entrySym && !strings.Contains(ts[i].String(), "$alloc") {
 			// built from entry-state symbols only: the cell held this reference at function entry
 			c.assume(TTrue, bvcmp("bvult", ts[i], c.heap0(s, allocName, SRef)))
 		} else {
